@@ -4,9 +4,9 @@ from props._runcommon import RUN_TRUSTED, RUN_ASSUMPTIONS, PropRunStream
 from run import selftest as W
 
 PROPERTY = "C03"
-LEAN_MODULES = ["LccModel.Props.C03", "LccModel.Props.C01Graph"]
-PROPS_FILES = ["LccModel/Props/C03.lean"]
-NAMESPACES = {"LccModel/Props/C03.lean": "LccModel.C03"}
+LEAN_MODULES = ["LccModel.Props.C03", "LccModel.Props.C01Graph", "LccModel.Props.C03Run"]
+PROPS_FILES = ["LccModel/Props/C03.lean", "LccModel/Props/C03Run.lean"]
+NAMESPACES = {"LccModel/Props/C03.lean": "LccModel.C03", "LccModel/Props/C03Run.lean": "LccModel.C03Run"}
 DRIVER = "drivers/Run.lean"
 TRUSTED_BASE = RUN_TRUSTED + ["fixture scheduling per scope: C14's Model/Fixture.lean theorems scheduled_only_needed / scheduled_deps_before (tied by C14.validate)"]
 ASSUMPTIONS = RUN_ASSUMPTIONS + ["the keyboard-interrupt path is excluded from C03's claim (finding D11 is registered under C08)"]
